@@ -45,15 +45,16 @@ func xzHasFilterChain(p []byte) bool {
 // under the discipline upstream's own drivers follow - the destination is
 // compacted to dst_history_retain_length after EVERY suspension and the work
 // buffer is sized generously in advance:
-//   S1 output kept in dst across a $short read while older history was dropped
-//      => distances resolved wrongly ("#lzma: bad distance" on a valid stream);
-//   S2 xz learns the history size from a block header parsed in the same call
-//      that then suspends => "#base: bad workbuf length" although the buffer had
-//      the size workbuf_len() reported before the call;
-//   S3 xz streams with a BCJ filter in front of LZMA2 (seen with the ARM64
-//      filter and the ARM filter with a start offset) fail with "#lzma: bad
-//      distance" when the source arrives in small pieces (1..7 bytes), whatever
-//      the destination discipline; with pieces >= 100 bytes they decode fine.
+//
+//	S1 output kept in dst across a $short read while older history was dropped
+//	   => distances resolved wrongly ("#lzma: bad distance" on a valid stream);
+//	S2 xz learns the history size from a block header parsed in the same call
+//	   that then suspends => "#base: bad workbuf length" although the buffer had
+//	   the size workbuf_len() reported before the call;
+//	S3 xz streams with a BCJ filter in front of LZMA2 (seen with the ARM64
+//	   filter and the ARM filter with a start offset) fail with "#lzma: bad
+//	   distance" when the source arrives in small pieces (1..7 bytes), whatever
+//	   the destination discipline; with pieces >= 100 bytes they decode fine.
 var LZMAFamily = map[string]bool{"lzma": true, "lzip": true, "xz": true}
 
 // Discipline reports whether the excluder for S1-S3 rewrites the plan of this
@@ -79,10 +80,10 @@ func Discipline(k stdh.Kind, plan stdgen.Plan, o Opts) (stdgen.Plan, bool) {
 
 // Env holds the harness processes of this test process.
 type Env struct {
-	mu    sync.Mutex
-	procs map[string]*stdh.Proc
-	Kinds []stdh.Kind
-	CPU   stdh.CPU
+	mu     sync.Mutex
+	procs  map[string]*stdh.Proc
+	Kinds  []stdh.Kind
+	CPU    stdh.CPU
 	byName map[string]stdh.Kind
 }
 
@@ -169,9 +170,28 @@ func Request(k stdh.Kind, payload []byte, plan stdgen.Plan, o Opts) []byte {
 	for _, q := range o.Quirks {
 		r.Quirk(uint32(q[0]), q[1])
 	}
+	AppendPlan(r, k, payload, plan, o)
+	mc := o.MaxCalls
+	if mc == 0 {
+		mc = 4 << 20
+	}
+	r.Drive(mc)
+	return r.Bytes()
+}
+
+// AppendPlan appends the source / destination / work buffer / pixel / token
+// plan ops (after the known-finding excluders have been applied) to a request.
+func AppendPlan(r *stdh.Req, k stdh.Kind, payload []byte, plan stdgen.Plan, o Opts) {
 	o.xzFilterChain = k.Pkg() == "xz" && xzHasFilterChain(payload)
 	plan, disciplined := Discipline(k, plan, o)
-	r.Src(plan.SrcMode, plan.SrcChunk, plan.Closed, plan.SrcExact, plan.SrcList)
+	closeMode := uint8(0)
+	if plan.Closed {
+		closeMode = 1
+		if plan.LateClose {
+			closeMode = 2
+		}
+	}
+	r.SrcClose(plan.SrcMode, plan.SrcChunk, closeMode, plan.SrcExact, plan.SrcList)
 	r.Dst(plan.DstMode, 1<<22, plan.DstStep, plan.DstFill, disciplined)
 	r.Work(plan.WorkMode, plan.WorkFill)
 	if k.Iface == stdh.IMG {
@@ -183,12 +203,6 @@ func Request(k stdh.Kind, payload []byte, plan stdgen.Plan, o Opts) []byte {
 	if o.Pure {
 		r.PureProbe(true)
 	}
-	mc := o.MaxCalls
-	if mc == 0 {
-		mc = 4 << 20
-	}
-	r.Drive(mc)
-	return r.Bytes()
 }
 
 // Exec runs a raw request on a variant; a time-out is retried once with a
